@@ -1166,6 +1166,24 @@ func c02Tasks(tier string) []mc.Task {
 		}
 	})
 
+	//   the same long rows through the file layer (files larger than what the readers have buffered when the
+	//   parse starts: plain, .gz and .xz, every configuration, all three ways of reading)
+	for _, ext := range []string{"", ".gz", ".xz"} {
+		ext := ext
+		add("file#long"+ext, func(c *mc.Ctx) {
+			defer c02DropTemp()
+			for _, L := range []int{4097, 8200, 20000} {
+				r := c02ShapeRows(c02NtSyms, 2, L)
+				for vi := range c02Variants {
+					c02Check(c, c02Case{Kind: "file", V: vi, Ext: ext, Rows: r})
+					if c.Expired() {
+						return
+					}
+				}
+			}
+		})
+	}
+
 	// (c) names
 	add("names#printable-L1", func(c *mc.Ctx) {
 		forEachString(c02Printable, 1, 1, func(s []byte) bool { c02NameCases(c, string(s)); return !c.Expired() })
@@ -1300,7 +1318,7 @@ func init() {
 			"(b) shapes: 1-3 rows x 32 lengths {1,2,9-11,19-21,49-51,59-61,79-81,99-101,119-121,159-161,179-181,239-241} x {nucleotide, protein} position-coded patterns in which no two 10-column blocks are equal; 4,10,11,100,101 rows x lengths 1,10,61; 2 rows x lengths 4000,4095,4096,4097,8200 (around the readers' 4096-byte buffer); " +
 			"(c) names: every name of length 1-2 over the 94 printable characters and of length 3 over the 16 symbols aB10_|.:()'-#/>= (thorough: length 4 over those 16), as the only row (length 4) and as second row of a 2x61 alignment; thorough: length 3 over all 94 as the only row and as second row of a 2x4 alignment; names of length 1,2,3,8-12,20,30,64 on one and on all three rows with lengths 1,10,61,121; " +
 			"(d) streams: every list of 1-3 (thorough 1-4) alignments out of 6 shapes (1x1, 2x10, 1x60, 2x61, 3x121, 2x5) written consecutively in each of the 8 Phylip configurations, read by phylip.Parser.ParseMultiple and by ParseMultiAlignmentsAuto; " +
-			"(f') streams in files: every list of 1-3 alignments out of {2x10, 2x61, 2x4200} written with one WriteString per alignment into a plain, .gz and .xz file in each of the 8 Phylip configurations, read through GetReader + ParseMultiple; (f) files: the 1-3-row shape corpus x 12 configurations x extensions '', .gz, .xz written through utils.OpenWriteFile into a private temporary directory and read through GetReader + parser, ReadAlign (non-strict, not Stockholm) and GetReader + ParseMultiAlignmentsAuto; " +
+			"(f') streams in files: every list of 1-3 alignments out of {2x10, 2x61, 2x4200} written with one WriteString per alignment into a plain, .gz and .xz file in each of the 8 Phylip configurations, read through GetReader + ParseMultiple; (f) files: the 1-3-row shape corpus and 2 rows x lengths 4097, 8200, 20000 x 12 configurations x extensions '', .gz, .xz written through utils.OpenWriteFile into a private temporary directory and read through GetReader + parser, ReadAlign (non-strict, not Stockholm) and GetReader + ParseMultiAlignmentsAuto; " +
 			"(g) chains: every sequence of 1-3 configurations (12+144+1728) applied in turn (write, parse, write the parsed alignment, ...) to the 2-row shapes of 12 lengths (thorough: 1-3 rows, 32 lengths), the alignment compared with the original after every step. " +
 			"Alignments whose alphabet goalign detects as neither nucleotide nor protein are skipped. An alignment is non-trivial when at least one configuration can represent it; distinct = distinct (names, rows).",
 		Assumptions: []string{
